@@ -132,39 +132,40 @@ def view_from_spec(spec: Any) -> View:
     return v
 
 
-def view_mismatch(got: View, want: View, path: str = "") -> Optional[str]:
-    """First attribute in which two views differ *exactly* (raw bounds included), or None."""
+def view_mismatch(got: View, want: View, path: str = "") -> Optional[Tuple[str, str]]:
+    """First attribute in which two views differ *exactly* (raw bounds included) as
+    (attribute name, detail), or None."""
     if got.kind != want.kind:
-        return f"{path}kind {got.kind} != {want.kind}"
+        return "kind", f"{path}kind {got.kind} != {want.kind}"
     if got.kind == "Spec":
         if set(got.children) != set(want.children):
-            return f"{path}children {sorted(got.children)} != {sorted(want.children)}"
+            return "children", f"{path}children {sorted(got.children)} != {sorted(want.children)}"
         for k in want.children:
             m = view_mismatch(got.children[k], want.children[k], f"{path}{k}.")
             if m:
-                return m
+                return k, m[1]
         return None
     if tuple(got.shape) != tuple(want.shape):
-        return f"{path}shape {got.shape} != {want.shape}"
+        return "shape", f"{path}shape {got.shape} != {want.shape}"
     if got.dtype != want.dtype:
-        return f"{path}dtype {got.dtype} != {want.dtype}"
+        return "dtype", f"{path}dtype {got.dtype} != {want.dtype}"
     if got.name != want.name:
-        return f"{path}name {got.name!r} != {want.name!r}"
+        return "name", f"{path}name {got.name!r} != {want.name!r}"
     for nm in ("lo", "hi"):
         a, b = getattr(got, nm), getattr(want, nm)
+        label = "minimum" if nm == "lo" else "maximum"
         if (a is None) != (b is None):
-            return f"{path}{nm} presence differs"
+            return label, f"{path}{label} presence differs"
         if a is not None:
             a, b = np.asarray(a), np.asarray(b)
-            label = "minimum" if nm == "lo" else "maximum"
             if a.shape != b.shape or a.dtype != b.dtype or not np.array_equal(a, b):
-                return f"{path}{label} {a.tolist()}:{a.dtype} != {b.tolist()}:{b.dtype}"
+                return label, f"{path}{label} {a.tolist()}:{a.dtype} != {b.tolist()}:{b.dtype}"
     if (got.num_values is None) != (want.num_values is None):
-        return f"{path}num_values presence differs"
+        return "num_values", f"{path}num_values presence differs"
     if want.num_values is not None:
         a, b = np.asarray(got.num_values), np.asarray(want.num_values)
         if a.shape != b.shape or not np.array_equal(a, b):
-            return f"{path}num_values {a.tolist()} != {b.tolist()}"
+            return "num_values", f"{path}num_values {a.tolist()} != {b.tolist()}"
     return None
 
 
